@@ -409,7 +409,54 @@ fn atomic_reject(v: BitVec<Vec<usize>>, st: &mut St, k: usize) -> BitVec<Vec<usi
     a.into()
 }
 
+/// More than 2^32 ones: every counting operation against the known totals, before and after fill and flip.
+fn giant(extra: usize, ctx: &mut Ctx) {
+    let len = (1usize << 32) + extra;
+    set_op("bv:giant:with_value");
+    let mut v: BitVec = BitVec::with_value(len, true);
+    let mut expect = |ctx: &mut Ctx, what: &str, got: usize, want: usize| {
+        ctx.out.checks += 1;
+        if got != want && !ctx.failed() {
+            ctx.fail("giant_count", format!("bits:bv:giant:{what}"), format!("{what} = {got} on {len} bits"), format!("{want}"));
+        }
+    };
+    for round in 0..3 {
+        let ones = if round == 1 { 0 } else { len };
+        set_op("bv:giant:count_ones");
+        expect(ctx, "count_ones", v.count_ones(), ones);
+        expect(ctx, "count_zeros", v.count_zeros(), len - ones);
+        set_op("bv:giant:par_count_ones");
+        expect(ctx, "par_count_ones", v.par_count_ones(), ones);
+        set_op("bv:giant:atomic_count_ones");
+        let a: AtomicBitVec = v.into();
+        expect(ctx, "atomic_count_ones", a.count_ones(), ones);
+        expect(ctx, "atomic_par_count_ones", a.par_count_ones(), ones);
+        v = a.into();
+        ctx.out.checks += 2;
+        if len > 0 && (v.get(len - 1) != (ones > 0) || v.get(1 << 32) != (ones > 0)) && !ctx.failed() {
+            ctx.fail("giant_get", "bits:bv:giant:get".to_string(), "a bit beyond 2^32 reads the wrong value".to_string(), format!("{}", ones > 0));
+        }
+        match round {
+            0 => {
+                set_op("bv:giant:fill");
+                v.fill(false);
+            }
+            1 => {
+                set_op("bv:giant:par_flip");
+                v.par_flip();
+            }
+            _ => {}
+        }
+    }
+    ctx.out.probe("giant_vectors_beyond_2^32_ones", 1);
+    ctx.out.bucket("bv|giant".to_string());
+}
+
 pub fn run(case: &BitsCase, ctx: &mut Ctx) {
+    if let Init::Giant { extra } = &case.init {
+        giant(*extra, ctx);
+        return;
+    }
     let mut st = St { ctx, bits: vec![], mst: vec![], step: 0, raw: false };
     set_op("bv:init");
     let mut obj = match &case.init {
@@ -442,6 +489,7 @@ pub fn run(case: &BitsCase, ctx: &mut Ctx) {
             st.bits = (0..*len as u64).map(|i| value_at(*seed, i, 1) & 1 != 0).collect();
             Obj::Grow(st.bits.iter().copied().collect())
         }
+        Init::Giant { .. } => unreachable!("handled above"),
         Init::Raw { len, extra, garbage, pattern, contents } => {
             let nw = len.div_ceil(WB) + *extra;
             let mut w: Vec<usize> = (0..nw).map(|i| garbage_word(*garbage, i as u64, *pattern) as usize).collect();
